@@ -81,6 +81,8 @@ def judge(rec, instrs, argv, stats):
             cul = ("unknown-id" if "unknown id" in why else "nop-not-trailing" if "after a NOP" in why else "final-stack" if "final stack" in why else
                    "operands" if "applied to" in why else "ordering" if "ordering" in why else "store-count" if "performed" in why else
                    "underflow" if "underflow" in why else "bounds" if "exceeds" in why else "other")
+            if "-push-basic" in argv:
+                cul = "any"          # one root cause: the pushed value a_j is neither constrained consistently nor decoded
             fails.append(runner.Failure("model-not-realizing", cul + " | " + _main_flag(argv), "[%s] spec of `%s` (b0=%d, bs=%d): model t=%s decodes to %s: %s" % (
                 lab, asm.instrs_to_plain(instrs), b0, bs, m["t"], m["ids"], why), dict(case, model=m["t"], a=m.get("a"))))
             break
